@@ -86,13 +86,11 @@ func C18_Ops[T signal.SignalTypes]() {
 		vf.Cover("pool-cycle")
 		p := signal.PoolAlloc[T](signal.Allocator{Channels: C, Length: e - s, Capacity: K})
 		q := p         // a copy of the allocator value taken before its first use shares the pool
-		p.Put(q.Get()) // warm the pool: steady state starts here
+		q.Put(p.Get()) // warm the pool: steady state starts here
 		n = vf.Allocs(func() {
-			b := p.Get()
+			b := p.Get() // get through one copy, put through the other: they are the same pool
 			b.AppendSample(x)
 			q.Put(b)
-			b = q.Get()
-			p.Put(b)
 		})
 	}
 	vf.Assert("no-allocation", n == 0)
